@@ -115,6 +115,29 @@ func runP7Sym(sc M) {
 			src.Write(mk(honest))
 			return d.Verify(cert)
 		})
+		run("desc-object-reused", func() (bool, error) {
+			// one descriptor object used for two updates in turn (a loop that decodes each pending update into the same variable):
+			// first an honest update by this certificate's key is decoded and verified, then this blob is decoded into the same
+			// object - the verdict is about what the object holds now
+			mk := func(sig []byte) []byte {
+				var w bytes.Buffer
+				w.Write(timeBytes("typical"))
+				w.Write(le32(uint32(24 + len(sig))))
+				w.Write([]byte{0x00, 0x02, 0xf1, 0x0e})
+				w.Write(wire(map[string]string{"g": pkcs7GUIDWire}, "g"))
+				w.Write(sig)
+				return w.Bytes()
+			}
+			honest := buildSymBlob("data", "none", []symSigner{{Sid: str(sc, "cert"), SigKey: map[string]string{"A": "k1", "B": "k2", "At": "k2", "Ae": "k3", "Ac": "k3", "Ca": "k3"}[str(sc, "cert")], SigOver: "attrs_as_encoded", Attrs: "present", CT: "data", MD: "m1", Order: "canonical"}}, "signer", false, dg)
+			d := signature.NewEFIVariableAuthentication2()
+			if err := d.Unmarshal(bytes.NewBuffer(mk(honest))); err == nil {
+				d.Verify(cert)
+			}
+			if err := d.Unmarshal(bytes.NewBuffer(mk(bare))); err != nil {
+				return false, err
+			}
+			return d.Verify(cert)
+		})
 		// one parsed object verified against several certificates in turn: every verdict must be the one a fresh
 		// parse gives for that certificate (no state may leak from one verification into the next)
 		callStart(id, "p7-shared", nil)
